@@ -6,6 +6,7 @@
 import BB.Model.Workers
 import BB.Core.Fair
 import BB.Proofs.WorkersFifo
+import BB.Proofs.WorkersReply
 
 namespace BB.Props.C14
 open BB.Workers BB.LTS
@@ -539,5 +540,244 @@ theorem never_overtaken (o : OSt) (hr : Reach osys o) (i j : Nat) (hij : i < j) 
 /-- non-vacuity: three calls with different counts, two workers; takes happen in call order -/
 example : (osys.run osys.init [.call 10 1, .call 11 2, .take 1, .call 12 1, .finish 1, .exit 1, .take 0]).map
     (fun o => (o.called, o.taken, o.st.queue)) = some ([10, 11, 12], [10, 11], [12]) := by decide
+
+/-! ### The reply path (layer of `BB/Proofs/WorkersReply.lean`): each Call returns exactly its own function's result, once -/
+
+def slotJobs (o : RSt) : List Nat := o.slot.map (·.1)
+def gotJobs (o : RSt) : List Nat := o.got.map (·.1)
+
+structure RInv (res : Nat → Nat) (o : RSt) : Prop where
+  cover : ∀ j, j ∈ o.st.done ↔ (j ∈ slotJobs o ∨ j ∈ gotJobs o)
+  disj : ∀ j, j ∈ slotJobs o → j ∉ gotJobs o
+  slotNodup : (slotJobs o).Nodup
+  gotNodup : (gotJobs o).Nodup
+  val : ∀ p, (p ∈ o.slot ∨ p ∈ o.got) → p.2 = res p.1
+
+theorem mem_running_of_worker {s : St} {i j : Nat} (h : s.workers[i]? = some (some j)) : j ∈ running s := by
+  simp only [running, List.mem_filterMap]
+  exact ⟨some j, List.mem_of_getElem? h, rfl⟩
+
+theorem running_not_done {s : St} (hr : Reach sys s) {j : Nat} (hj : j ∈ running s) : j ∉ s.done := by
+  intro hd
+  have h := exactly_once s hr
+  rw [List.nodup_append] at h
+  exact h.2.2 j (List.mem_append_right _ hj) j hd rfl
+
+theorem done_of_nonfinish {s s' : St} {a : Act} (hs : sys.step s a = some s') (ha : ∀ i, a ≠ .finish i) : s'.done = s.done := by
+  cases a with
+  | finish i => exact absurd rfl (ha i)
+  | call j n =>
+    simp only [sys, step] at hs
+    split at hs
+    · cases hs
+    · cases hs; rfl
+  | take i =>
+    simp only [sys, step] at hs
+    split at hs
+    · split at hs
+      · cases hs
+      · cases hs; rfl
+    · cases hs
+  | exit i =>
+    simp only [sys, step] at hs
+    split at hs
+    · split at hs
+      · cases hs; rfl
+      · cases hs
+    · cases hs
+
+theorem rinv_reach (res : Nat → Nat) (o : RSt) (hr : Reach (rsys res) o) : RInv res o := by
+  induction hr with
+  | init => exact ⟨by intro j; simp [slotJobs, gotJobs, rsys], by intro j h; simp [slotJobs, rsys] at h, by simp [slotJobs, rsys],
+      by simp [gotJobs, rsys], by intro p h; simp [rsys] at h⟩
+  | @step o1 o2 a hr1 hs ih =>
+    have hbase := rreach_proj o1 hr1
+    cases a with
+    | recv j =>
+      simp only [rsys, rstep] at hs
+      split at hs
+      · rename_i p hp
+        cases hs
+        have hmem : p ∈ o1.slot := List.mem_of_find?_eq_some hp
+        have hpj : p.1 = j := by have := List.find?_some hp; simpa using this
+        have hjs : j ∈ slotJobs o1 := by rw [← hpj]; exact List.mem_map_of_mem hmem
+        have hjg : j ∉ gotJobs o1 := ih.disj j hjs
+        have hfilt : ∀ k, k ∈ (o1.slot.filter (·.1 != j)).map (·.1) ↔ (k ∈ slotJobs o1 ∧ k ≠ j) := by
+          intro k
+          simp only [slotJobs, List.mem_map, List.mem_filter]
+          constructor
+          · rintro ⟨q, ⟨hq, hne⟩, rfl⟩
+            exact ⟨⟨q, hq, rfl⟩, by simpa using hne⟩
+          · rintro ⟨⟨q, hq, rfl⟩, hne⟩
+            exact ⟨q, ⟨hq, by simpa using hne⟩, rfl⟩
+        refine ⟨?_, ?_, ?_, ?_, ?_⟩
+        · intro k
+          show k ∈ o1.st.done ↔ (k ∈ (o1.slot.filter (·.1 != j)).map (·.1) ∨ k ∈ (o1.got ++ [p]).map (·.1))
+          have hgot : k ∈ (o1.got ++ [p]).map (·.1) ↔ (k ∈ gotJobs o1 ∨ k = j) := by
+            simp only [gotJobs, List.map_append, List.mem_append, List.map_cons, List.map_nil, List.mem_singleton, hpj]
+          rw [hfilt k, ih.cover k, hgot]
+          by_cases hk : k = j
+          · subst hk
+            exact ⟨fun _ => Or.inr (Or.inr rfl), fun _ => Or.inl hjs⟩
+          · constructor
+            · rintro (h | h)
+              · exact Or.inl ⟨h, hk⟩
+              · exact Or.inr (Or.inl h)
+            · rintro (⟨h, _⟩ | h | h)
+              · exact Or.inl h
+              · exact Or.inr h
+              · exact absurd h hk
+        · intro k hk
+          have hk' := (hfilt k).mp hk
+          show k ∉ (o1.got ++ [p]).map (·.1)
+          simp only [List.map_append, List.mem_append, List.map_cons, List.map_nil, List.mem_singleton, hpj, not_or]
+          exact ⟨ih.disj k hk'.1, hk'.2⟩
+        · exact (ih.slotNodup.sublist ((List.filter_sublist).map _))
+        · show ((o1.got ++ [p]).map (·.1)).Nodup
+          simp only [List.map_append, List.map_cons, List.map_nil]
+          rw [List.nodup_append]
+          refine ⟨ih.gotNodup, by simp, ?_⟩
+          intro a ha b hb hab
+          simp only [List.mem_singleton] at hb
+          rw [hb, hpj] at hab
+          exact hjg (hab ▸ ha)
+        · intro q hq
+          rcases hq with hq | hq
+          · exact ih.val q (Or.inl (List.mem_filter.mp hq).1)
+          · rcases List.mem_append.mp hq with hq | hq
+            · exact ih.val q (Or.inr hq)
+            · simp only [List.mem_singleton] at hq
+              rw [hq]; exact ih.val p (Or.inl hmem)
+      · cases hs
+    | base a =>
+      simp only [rsys, rstep] at hs
+      cases e : sys.step o1.st a with
+      | none => simp [e] at hs
+      | some s' =>
+        simp only [e] at hs
+        have other : (∀ i, a ≠ .finish i) → o2 = { o1 with st := s' } → RInv res o2 := by
+          intro hnf ho
+          have hd := done_of_nonfinish e hnf
+          subst ho
+          exact ⟨fun k => by show k ∈ s'.done ↔ _; rw [hd]; exact ih.cover k, ih.disj, ih.slotNodup, ih.gotNodup, ih.val⟩
+        cases a with
+        | call j n => exact other (by intro i h; cases h) (by cases hs; rfl)
+        | take i => exact other (by intro i h; cases h) (by cases hs; rfl)
+        | exit i => exact other (by intro i h; cases h) (by cases hs; rfl)
+        | finish i =>
+          simp only at hs
+          split at hs
+          · rename_i j hw
+            split at hs
+            · cases hs
+            · rename_i hnc
+              cases hs
+              obtain ⟨j', hw', hdone⟩ := finish_own_job _ _ i e
+              have hjj : j' = j := by rw [hw] at hw'; cases hw'; rfl
+              subst hjj
+              have hjd := running_not_done hbase (mem_running_of_worker hw)
+              have hjs : j' ∉ slotJobs o1 := by simpa [slotJobs] using hnc
+              have hjg : j' ∉ gotJobs o1 := fun h => hjd ((ih.cover j').mpr (Or.inr h))
+              have hslot : ∀ k, k ∈ (o1.slot ++ [(j', res j')]).map (·.1) ↔ (k ∈ slotJobs o1 ∨ k = j') := by
+                intro k
+                simp only [slotJobs, List.map_append, List.mem_append, List.map_cons, List.map_nil, List.mem_singleton]
+              refine ⟨?_, ?_, ?_, ?_, ?_⟩
+              · intro k
+                show k ∈ s'.done ↔ (k ∈ (o1.slot ++ [(j', res j')]).map (·.1) ∨ k ∈ gotJobs o1)
+                rw [hdone, List.mem_append, List.mem_singleton, ih.cover k, hslot k]
+                constructor
+                · rintro ((h | h) | h)
+                  · exact Or.inl (Or.inl h)
+                  · exact Or.inr h
+                  · exact Or.inl (Or.inr h)
+                · rintro ((h | h) | h)
+                  · exact Or.inl (Or.inl h)
+                  · exact Or.inr h
+                  · exact Or.inl (Or.inr h)
+              · intro k hk
+                rcases (hslot k).mp hk with h | h
+                · exact ih.disj k h
+                · rw [h]; exact hjg
+              · show ((o1.slot ++ [(j', res j')]).map (·.1)).Nodup
+                simp only [List.map_append, List.map_cons, List.map_nil]
+                rw [List.nodup_append]
+                refine ⟨ih.slotNodup, by simp, ?_⟩
+                intro a ha b hb hab
+                simp only [List.mem_singleton] at hb
+                rw [hb] at hab
+                exact hjs (hab ▸ ha)
+              · exact ih.gotNodup
+              · intro q hq
+                rcases hq with hq | hq
+                · rcases List.mem_append.mp hq with hq | hq
+                  · exact ih.val q (Or.inl hq)
+                  · simp only [List.mem_singleton] at hq
+                    rw [hq]
+                · exact ih.val q (Or.inr hq)
+          · cases hs
+
+/-- THE WORKER NEVER WAITS FOR THE CALLER: whenever a step of `sys` is enabled it is enabled in the reply layer too — in
+    particular a worker that finishes job j always finds j's one-place reply channel empty (j finishes once: `exactly_once`) -/
+theorem worker_never_waits_for_the_caller (res : Nat → Nat) (o : RSt) (hr : Reach (rsys res) o) (a : Act) (s' : St)
+    (hs : sys.step o.st a = some s') : ∃ o', (rsys res).step o (.base a) = some o' ∧ o'.st = s' := by
+  have hinv := rinv_reach res o hr
+  have hbase := rreach_proj o hr
+  cases a with
+  | call j n => exact ⟨{ o with st := s' }, by simp [rsys, rstep, hs], rfl⟩
+  | take i => exact ⟨{ o with st := s' }, by simp [rsys, rstep, hs], rfl⟩
+  | exit i => exact ⟨{ o with st := s' }, by simp [rsys, rstep, hs], rfl⟩
+  | finish i =>
+    obtain ⟨j, hw, _⟩ := finish_own_job _ _ i hs
+    have hjd := running_not_done hbase (mem_running_of_worker hw)
+    have hjs : j ∉ slotJobs o := fun h => hjd ((hinv.cover j).mpr (Or.inl h))
+    have hall : ∀ x, (j, x) ∉ o.slot := fun x hx => hjs (List.mem_map_of_mem (f := (·.1)) hx)
+    exact ⟨{ o with st := s', slot := o.slot ++ [(j, res j)] }, by simp [rsys, rstep, hs, hw, hall], rfl⟩
+
+/-- … so the layer has exactly the runs of `sys` (it adds no blocking) -/
+theorem reply_layer_is_passive (res : Nat → Nat) :
+    (∀ o, Reach (rsys res) o → Reach sys o.st) ∧ (∀ s, Reach sys s → ∃ o, Reach (rsys res) o ∧ o.st = s) := by
+  refine ⟨fun o h => rreach_proj o h, ?_⟩
+  intro s hr
+  induction hr with
+  | init => exact ⟨(rsys res).init, Reach.init, rfl⟩
+  | step _ hs ih =>
+    obtain ⟨o, hr', rfl⟩ := ih
+    obtain ⟨o', e1, e2⟩ := worker_never_waits_for_the_caller res o hr' _ _ hs
+    exact ⟨o', Reach.step hr' e1, e2⟩
+
+/-- EACH CALL RETURNS EXACTLY ITS OWN FUNCTION'S RESULT, ONCE: what the caller of job j receives is `res j`, of a job that has
+    finished, and no caller receives twice -/
+theorem call_returns_its_own_result_once (res : Nat → Nat) (o : RSt) (hr : Reach (rsys res) o) :
+    (gotJobs o).Nodup ∧ ∀ p ∈ o.got, p.2 = res p.1 ∧ p.1 ∈ o.st.done := by
+  have hinv := rinv_reach res o hr
+  exact ⟨hinv.gotNodup, fun p hp => ⟨hinv.val p (Or.inr hp), (hinv.cover p.1).mpr (Or.inr (List.mem_map_of_mem hp))⟩⟩
+
+/-- NO REPLY IS LOST: the result of a finished job has either been received by its caller or is waiting in the job's channel,
+    where the caller's receive is enabled -/
+theorem no_reply_is_lost (res : Nat → Nat) (o : RSt) (hr : Reach (rsys res) o) (j : Nat) (hj : j ∈ o.st.done) :
+    j ∈ gotJobs o ∨ ∃ o', (rsys res).step o (.recv j) = some o' ∧ (j, res j) ∈ o'.got := by
+  have hinv := rinv_reach res o hr
+  rcases (hinv.cover j).mp hj with h | h
+  · right
+    obtain ⟨p, hp, hpj⟩ := List.mem_map.mp h
+    cases hf : o.slot.find? (·.1 == j) with
+    | none =>
+      have := List.find?_eq_none.mp hf p hp
+      simp [hpj] at this
+    | some q =>
+      have hq := List.mem_of_find?_eq_some hf
+      have hqj : q.1 = j := by have := List.find?_some hf; simpa using this
+      have hqv := hinv.val q (Or.inl hq)
+      refine ⟨{ o with slot := o.slot.filter (·.1 != j), got := o.got ++ [q] }, by simp [rsys, rstep, hf], ?_⟩
+      have : q = (j, res j) := by
+        cases q with
+        | mk a b => simp only at hqj hqv; subst hqj; rw [hqv]
+      simp [this]
+  · exact Or.inl h
+
+/-- non-vacuity: two jobs, the second finishes first; both callers receive their own result (`res j = 10 * j`) -/
+example : ((rsys (· * 10)).run (rsys (· * 10)).init
+      [.base (.call 1 2), .base (.call 2 2), .base (.take 0), .base (.take 1), .base (.finish 1), .recv 2, .base (.finish 0), .recv 1]).map
+    (fun o => (o.got, o.slot, o.st.done)) = some ([(2, 20), (1, 10)], [], [2, 1]) := by decide
 
 end BB.Props.C14
